@@ -155,3 +155,29 @@ def _C20():
                                    "all four generators)", "prophyc.main in-process for the stale-state arm"],
                           "stub": ["process environment (hash seed, cwd, argv order) chosen by the tape",
                                    "file system of the in-process arm (in-memory)"]}}
+
+
+RULE_COMP = ("each run draws a valid schema in prophy or isar syntax and applies 0-3 corruptions (grammar-aware token "
+             "edits: operator for operator, declared name for declared name, literal for literal, array form for array "
+             "form, definition/field renames; blind token deletes/duplicates/swaps/inserts; structure-level snippets: "
+             "self- and mutually recursive definitions, typedef and constant cycles, duplicates, rule breakers, missing "
+             "attributes; file-level truncation / empty / noise), optionally an include (present, missing, self), a "
+             "patch file (valid and broken rules), an option variation (syntax mismatch, missing -I dir or patch, no "
+             "inputs, --version, --quiet, --void_out, unknown option, --sack, same input twice) and one I/O fault (EIO on "
+             "the k-th read, ENOSPC on the k-th write or close, output directory vanishing); prophyc.main runs under the "
+             "step clock; distinct = distinct (schema shape, syntax, outcome class, corruption kinds); non-trivial = at "
+             "least one corruption, option variation, patch or I/O fault")
+
+
+def _C13():
+    from props import comp
+    return {"arms": [Arm(comp, "comp", 14000, 600000, label="S-COMP")], "level": "exploration", "rule": RULE_COMP,
+            "assumptions": [
+                "the designed error channel is prophyc.ProphycError (emit.error) and SystemExit (argparse)",
+                "for prophy-language input without I/O fault or patch every other exception escaping prophyc.main is a "
+                "violation; for isar / patch / option inputs an escape is a violation iff it is one of the statement's "
+                "internal types (ValueError, KeyError, AttributeError, TypeError, IndexError, AssertionError, "
+                "RecursionError) and was not raised by an explicit raise statement in prophyc's own source",
+                "step clock budget 1500000 + 12000 line events per input character (about 40x a valid compile)",
+                "inputs are valid UTF-8 text"],
+            "real_stub": REAL_STUB_PY}
